@@ -37,7 +37,7 @@ inductive OpK
 
 inductive Kind
   | root                                   -- the operation's top-level container (kwargs / document / instance)
-  | array | deque | set | tuple | map      -- homogeneous typed collections (`Shape.coll`)
+  | array | deque | set | immSet | tuple | map   -- homogeneous typed collections (`Shape.coll`)
   | arrayPos | dequePos | tuplePos         -- positional items (`Shape.keyed` by index)
   | struct | inline                        -- ClassReference / StructureReference (`Shape.keyed`)
   | anyOf | oneOf | allOf | notF           -- multi-field wrappers (`Shape.wrap`)
@@ -67,6 +67,7 @@ structure AliasRow where
   returns : Ret          -- output side: what the result holds at this site
   retainsArg : Bool      -- input side: the instance keeps the caller's object itself
   shallow : Bool         -- the copy made at this site is one level deep only (untyped content)
+  deep : Bool            -- the copy made at this site is generic (not by the declared element type)
   astMode : String       -- what the AST idiom matcher read off the source ("" = no recognisable idiom)
   agree : Bool           -- AST reading and dynamic probe agree (true when there is no idiom)
   deriving DecidableEq, Repr, Inhabited
@@ -84,9 +85,10 @@ def Kind.isLeafSite : Kind → Bool
 def AliasRow.mode (r : AliasRow) : Mode :=
   if r.returns == .raises then .error
   else if r.op.isInput then
-    (if r.retainsArg then .alias else if r.shallow then .shallow else if r.kind.isLeafSite then .deep else .rebuild)
+    (if r.retainsArg then .alias else if r.shallow then .shallow
+     else if r.kind.isLeafSite || r.deep then .deep else .rebuild)
   else match r.returns with
-    | .fresh => if r.shallow then .shallow else if r.kind.isLeafSite then .deep else .rebuild
+    | .fresh => if r.shallow then .shallow else if r.kind.isLeafSite || r.deep then .deep else .rebuild
     | .scalar => if r.kind.isLeafSite then .deep else .rebuild
     | _ => .alias
 
